@@ -19,11 +19,11 @@ ASSUMPTIONS = ["an inverter refuses a read iff it touches a refused register ran
                "which optional blocks a model offers is derived by the oracle from the tag lists of goodwe.model (data) and the "
                "thresholds stated in the property (15 kW / 25 kW)"]
 MUST = ["battery_toggle_checked", "configs_run", "keys_equal_checked", "fallback_battery", "fallback_battery2", "fallback_meter_ext2", "fallback_meter_ext",
-        "fallback_mppt", "first_call_failed_second_ok", "presence_checked", "dt_meter_refused", "es_configs"]
+        "fallback_mppt", "first_call_failed_second_ok", "presence_checked", "dt_meter_refused", "es_configs", "slow_refusals_keepalive"]
 EXHAUSTIVE = {"quick": False, "thorough": True}
 
 
-def check_config(cfg, part, port=8899):
+def check_config(cfg, part, port=8899, slow=False):
     g = env.goodwe()
     toggled = {}
 
@@ -39,13 +39,17 @@ def check_config(cfg, part, port=8899):
             except g.exceptions.RequestRejectedException:
                 toggled[mode] = None
 
-    res = configs.run_config(cfg, ncalls=3, port=port, extra=battery_toggle)
+    # slow: firmware that takes 1.2 timeouts to refuse a block (so the retransmission is refused as well), kept-alive socket, retries 2
+    res = configs.run_config(cfg, ncalls=3, port=port, extra=battery_toggle, **({"retries": 2, "keep_alive": True, "exc_delay": 1.2} if slow else {}))
+    if slow:
+        part.count("slow_refusals_keepalive")
     run = res["run"]
     part.evaluations += 1
     part.count("configs_run")
     fam = cfg["family"]
-    case = {"config": cfg, "port": port}
-    tag = f"{fam} {cfg['tag']} rated={cfg['rated']} refused={cfg['refused']} battery={cfg['battery']}"
+    case = {"config": cfg, "port": port, "slow": slow}
+    tag = f"{fam} {cfg['tag']} rated={cfg['rated']} refused={cfg['refused']} battery={cfg['battery']}" + \
+        (" (inverter refuses 1.2 timeouts late, keep-alive on, retries 2)" if slow else "")
     if run.stop or run.error is not None:
         part.violate(f"C15/{fam}/setup-failed", f"{tag}: {run.stop or repr(run.error)}", case)
         return
@@ -115,10 +119,12 @@ def run_shard(spec):
         check_config(cfg, part, 8899)
         if cfg["family"] != "ES" and (tier != "quick" or i % 5 == 0):
             check_config(cfg, part, 502)
+        if cfg["family"] != "ES" and cfg["refused"] and i % 9 == 4:
+            check_config(cfg, part, 8899, slow=True)
     return part
 
 
 def replay(case):
     part = Part()
-    check_config(case["config"], part, case.get("port", 8899))
+    check_config(case["config"], part, case.get("port", 8899), slow=case.get("slow", False))
     return [{"key": v["key"], "msg": v["msg"]} for v in part.violations]
